@@ -88,8 +88,15 @@ CLAIMED = {
                      'after every child) returns ValueError exactly when the tree-level least common suffix STree.lub is undefined and otherwise the '
                      'encoding of lub a b; C09_broadcast_cases, C09_lub_leaf, C09_lub_extends_left (the first operand is a prefix of the result, which '
                      'keeps its node types, key order and custom entries), C09_lub_idem / C09_broadcast_idem (idempotence); C09_rejects, C09_leaf_left_go, C09_leaf_right_go, '
-                     'C09_kind_conflict. That the second operand is a prefix of the result, leastness, symmetry up to dict kind / order, idempotence, '
-                     'the leaf replication of tree_broadcast_prefix and the n-ary tree_broadcast_map: correspondence against the model plus a reference '
+                     'C09_kind_conflict. Order theory of the merged shape (Lemmas/LubOrder.lean: normal forms of prefix / lub at a pair of nodes, then mutual '
+                     'structural induction with dict children re-paired by key in both directions): C09_lub_closed (result well-formed), '
+                     'C09_lub_extends_right (the second operand is a prefix of the result, when each custom class has one registration record among '
+                     'the two shapes - is_prefix compares registrations by identity, broadcast by class), C09_lub_least (every common suffix of the '
+                     'operands is a suffix of the result, and the merge succeeds whenever a common suffix exists), C09_conflict_iff / '
+                     'C09_broadcast_error_iff (ValueError exactly when no common suffix exists), C09_broadcast_is_least (engine level: both operands '
+                     '<= result <= every common suffix, via the is_prefix refinement of C07), C09_lub_comm (argument order changes the result only up '
+                     'to mutual prefix, i.e. dict kind / key order / entries), C09_lub_of_prefix (a <= b gives b back up to mutual prefix, same size). '
+                     'The leaf replication of tree_broadcast_prefix and the n-ary tree_broadcast_map: correspondence against the model plus a reference '
                      'least-common-suffix in the oracle.' + PARTIAL,
                 technique='Lean 4 proof (refinement of the two-array merge walk to a tree-level lub, induction on fuel + list inductions) + correspondence + reference oracle', ref='6 C09'),
     'C10': dict(text='Proved: C10_chunks_flatten, C10_chunks_row_length, C10_chunks_get, C10_transpose_rows (value at (j,i) = value at (i,j)), '
